@@ -2,6 +2,8 @@
 #
 # SPDX-License-Identifier: MIT
 
+from numbers import Integral
+
 from .checks import check_data
 from .specs import (
     CHANNEL_MESSAGES,
@@ -75,6 +77,10 @@ def decode_message(msg_bytes, time=0, check=True):
 
     if len(msg_bytes) == 0:
         raise ValueError('message is 0 bytes long')
+
+    for byte in msg_bytes:
+        if not isinstance(byte, Integral):
+            raise TypeError('message bytes must be int')
 
     status_byte = msg_bytes[0]
     data = msg_bytes[1:]
